@@ -78,7 +78,7 @@ def make(ck, rnd, n):
         mt = dict(circuit=gen.circuit_state(c), lanes=lanes, delays=d.tolist(), poldep=poldep, caps=rnd.choice([8, 16, 16]),
                   inw=wrec.rand_inputs(rnd, c, lanes, multi=not via_s, tmax=12), via_s=via_s, warm=wrec.rand_inputs(rnd, c, lanes, multi=True, tmax=12) if via_s else None,
                   cls=rnd.choice(['WaveSim', 'WaveSimCuda']),
-                  reuse=reuse, strip=strip, shift=rnd.choice([1, 16, 100, 1000]), scale=rnd.choice([2, 4, 8]), sden=rnd.choice([1, 1, 2 ** 10, 2 ** 20, 2 ** 24]))
+                  reuse=reuse, strip=strip, shift=rnd.choice([1, 16, 100, 1000, -7, -100]), scale=rnd.choice([2, 4, 8]), sden=rnd.choice([1, 1, 2 ** 10, 2 ** 20, 2 ** 24]))
         mt['desc'] = '%s poldep=%s reuse=%s strip=%s shift=%d scale=%d/%d' % (mt['cls'], poldep, reuse, strip, mt['shift'], mt['scale'], mt['sden'])
         recs.append(build(mt))
         metas.append(mt)
